@@ -1,7 +1,7 @@
 (* C16 — property theorems only (statements + [exact]); proofs are in Proofs.v / VrfProofs.v / VrfInst.v. *)
 From Coq Require Import List NArith ZArith Znumtheory Bool.
 From V.Base Require Import Hex BigEndian.
-From V.C16 Require Import Model Proofs FloatProofs Vrf VrfProofs VrfInst VrfEll.
+From V.C16 Require Import Model Proofs FloatProofs Vrf VrfProofs VrfInst VrfEll Curve CurveProofs FieldMod CurveClosure.
 Import ListNotations.
 Local Open Scope Z_scope.
 
@@ -312,6 +312,79 @@ Theorem C16_one_answerable_challenge_at_ell25519 : forall (x : Z) (H Gm U V : G 
   (Z.of_N ell25519 | c1 - c2).
 Proof. exact (one_answerable W25519). Qed.
 Print Assumptions C16_one_answerable_challenge_at_ell25519.
+
+(* ---------------- the executable curve layer (Curve.v) ---------------- *)
+(* Curve.v is compared with the real edwards25519 code on every run (CurveHarness.v: decompression,
+   Double, GeSub with exact coordinates, ToBytes, short scalar multiplications, the U and V of whole
+   verifications, shifted vs honest Gamma).  What is PROVED about it: *)
+
+(* the fast reduction is reduction modulo p = 2^255 - 19, the field operations are those of Z/p, and
+   p is prime (Pocklington certificate) *)
+Theorem C16_field_model : prime fp /\
+  (forall x, 0 <= x < 2 ^ 510 -> fred x = x mod fp) /\
+  (forall a b, inF a -> inF b -> fmul a b = (a * b) mod fp /\ fadd a b = (a + b) mod fp /\
+                                 fsub a b = (a - b) mod fp /\ fneg a = (- a) mod fp) /\
+  (forall z e, inF z -> 0 < e -> fpow z e = (z ^ e) mod fp).
+Proof.
+  exact (conj fp_prime (conj fred_spec (conj
+    (fun a b Ha Hb => conj (fmul_spec a b Ha Hb) (conj (proj1 (fadd_spec a b Ha Hb))
+       (conj (proj1 (fsub_spec a b Ha Hb)) (proj1 (fneg_spec a Ha))))) fpow_spec))).
+Qed.
+Print Assumptions C16_field_model.
+
+(* the constants of the code: d = -121665/121666, sqrt(-1), the base point (x even, y = 4/5) is on the
+   curve; the base point has order exactly ell, a prime: ell * B = O and B <> O *)
+Theorem C16_curve_constants :
+  (fmul cd 121666 = fneg 121665 /\ fsq sqrtm1 = fneg 1 /\ fmul 5 (pY base_point) = 4 /\
+   on_curve base_point = true /\ (pX base_point) mod 2 = 0 /\ cd2 = fmul 2 cd /\ (fp - 5) mod 8 = 0 /\
+   ellZ = Z.of_N ell25519) /\
+  prime ellZ /\ pt_eqb (pt_mul ellZ base_point) pt_zero = true /\ pt_eqb base_point pt_zero = false.
+Proof. exact (conj constants_ok (conj ellZ_prime base_order)). Qed.
+Print Assumptions C16_curve_constants.
+
+(* the eight points k * T8 (T8 decoded from 26e8...fc05): all on the curve, all killed by 8, pairwise
+   different, with orders 1,8,4,8,2,8,4,8 — the small-order component the World hypotheses talk about *)
+Theorem C16_torsion8 :
+  forallb on_curve torsion8 = true /\
+  forallb (fun P => pt_eqb (pt_mul 8 P) pt_zero) torsion8 = true /\
+  all_distinct torsion8 = true /\
+  map order8 torsion8 = [1; 8; 4; 8; 2; 8; 4; 8] /\
+  pt_eqb (pt_mul 4 t8) t2 = true /\ (pt_eqb (pt_mul 2 t8) t4 || pt_eqb (pt_mul 6 t8) t4) = true.
+Proof. exact torsion8_facts. Qed.
+Print Assumptions C16_torsion8.
+
+(* none of the seven non-trivial ones is in the prime-order subgroup: a Gamma shifted by one of them
+   fails the guard of C16_output_unique_encoding_guarded *)
+Theorem C16_torsion_not_in_subgroup :
+  forallb (fun P => negb (pt_eqb (pt_mul ellZ P) pt_zero)) (tl torsion8) = true.
+Proof. exact torsion_not_in_subgroup. Qed.
+Print Assumptions C16_torsion_not_in_subgroup.
+
+(* FromBytes has no canonicity check and no check on the sign bit of x = 0: y = p + 1 and
+   "y = 1 with the sign bit" both decode to the identity; y = 2 is rejected (not a square) *)
+Theorem C16_noncanonical_decodes :
+  (match decompress (2 ^ 255 - 18) with Some P => pt_eqb P pt_zero | None => false end) = true /\
+  (match decompress (1 + 2 ^ 255) with Some P => pt_eqb P pt_zero | None => false end) = true /\
+  decompress 2 = None.
+Proof. exact noncanonical_decodes. Qed.
+Print Assumptions C16_noncanonical_decodes.
+
+(* for ALL in-range inputs: doubling and negation as written in the code keep the equations of the
+   extended curve -X^2 + Y^2 = Z^2 + d T^2, X Y = Z T (congruences modulo p; nsatz over the integral
+   domain Z/p), which imply the projective curve equation *)
+Theorem C16_curve_double_closed : forall P, wf P -> Cv P -> wf (pt_double P) /\ Cv (pt_double P).
+Proof. exact double_closed. Qed.
+Print Assumptions C16_curve_double_closed.
+
+Theorem C16_curve_neg_closed : forall P, wf P -> Cv P -> wf (pt_neg P) /\ Cv (pt_neg P).
+Proof. exact neg_closed. Qed.
+Print Assumptions C16_curve_neg_closed.
+
+Theorem C16_curve_equation_projective : forall P, Cv P ->
+  eqm ((pY P * pY P - pX P * pX P) * (pZ P * pZ P))
+      (pZ P * pZ P * (pZ P * pZ P) + cd * (pX P * pX P) * (pY P * pY P)).
+Proof. exact Cv_projective. Qed.
+Print Assumptions C16_curve_equation_projective.
 
 (* Non-vacuity: a World exists (all group/hash hypotheses hold for Z/40), an honest proof in it
    verifies, and the guard of the qn theorem is met by an accepted proof with qn = 2. *)
